@@ -386,11 +386,13 @@ theorem inv_write {p : Profile} {g : Graph} {c : Store} {d : Dev} {n : NodeId} {
     (hlen : buf.length = r.len) :
     Inv p g
       (if d.writeOk a buf.length = true ∧ r.mode = .writeThrough then
-         ((c.invalidateBy n).invalidateBy r.port).cache n a r.len buf
+         (((c.invalidateBy n).invalidateBy r.port).invalidateOf n).cache n a r.len buf
        else ((c.invalidateBy n).invalidateBy r.port).invalidateOf n)
       (d.write a buf).2 := by
   have hI2 : Inv p g ((c.invalidateBy n).invalidateBy r.port) d :=
     inv_invalidateBy (inv_invalidateBy hI _) _
+  have hI3 : Inv p g (((c.invalidateBy n).invalidateBy r.port).invalidateOf n) d :=
+    inv_invalidateOf hI2 n
   split
   · rename_i hcond
     obtain ⟨hok, hwt⟩ := hcond
@@ -403,30 +405,24 @@ theorem inv_write {p : Profile} {g : Graph} {c : Store} {d : Dev} {n : NodeId} {
         cases h
         rw [← hlen]
         exact peek_write_same hok
-      · rename_i hne
-        by_cases hkey : t = n → a' ≠ a
-        · obtain ⟨h1, h2⟩ := survivor_disjoint hP hI hn hk h hkey
-          rw [← hlen] at h2
-          rw [peek_write_frame h2]
-          exact hI.coherent _ _ _ _ h1
-        · exfalso
-          have htn : t = n := Classical.byContradiction fun hx => hkey (fun e => absurd e hx)
-          have haa : a' = a := Classical.byContradiction fun hx => hkey (fun _ => hx)
-          obtain ⟨rt, hrt, _, hl, _, _⟩ := hI2.keys _ _ _ _ h
-          subst htn
-          rw [hn] at hrt
-          cases hrt
-          exact hne ⟨rfl, haa, hl⟩
+      · rw [get_invalidateOf] at h
+        split at h
+        · cases h
+        rename_i htn
+        obtain ⟨h1, h2⟩ := survivor_disjoint hP hI hn hk h (fun e => absurd e htn)
+        rw [← hlen] at h2
+        rw [peek_write_frame h2]
+        exact hI.coherent _ _ _ _ h1
     · intro t a' l' bs h
       rw [get_cache] at h
       split at h
       · rename_i e
         obtain ⟨rfl, rfl, rfl⟩ := e
         exact ⟨r, hn, by rw [hwt]; decide, rfl, hp, hk⟩
-      · exact hI2.keys _ _ _ _ h
+      · exact hI3.keys _ _ _ _ h
     · intro t r' m h1 h2
       rw [targets_congr (invalidators_cache _ _ _ _ _)]
-      exact hI2.table t r' m h1 h2
+      exact hI3.table t r' m h1 h2
   · refine ⟨?_, (inv_invalidateOf hI2 n).keys, (inv_invalidateOf hI2 n).table⟩
     intro t a' l' bs h
     rw [get_invalidateOf] at h
